@@ -19,6 +19,12 @@ R3 = {"threads": ["t1", "t2", "t3"], "scripts": {"t1": [REG("b1"), GA], "t2": [I
 R4 = {"threads": ["t1", "t2", "t3"], "scripts": {"t1": [REG("a1"), REG("b1"), GA], "t2": [REG("a3"), UNR("b1"), INC("a3", 4)], "t3": [GA, REG("a2"), GA]}}
 
 
+# the same collector unregistered by two threads at once while a third registers it again: exactly as many unregisters succeed as
+# registrations were in place
+R5 = {"threads": ["t1", "t2", "t3"], "scripts": {"t1": [REG("a1"), UNR("a1"), GA], "t2": [UNR("a1"), GA], "t3": [UNR("a1"), REG("a1"), INC("a1", 2)]}}
+R6 = {"threads": ["t1", "t2"], "scripts": {"t1": [REG("b1"), UNR("b1"), UNR("b1")], "t2": [UNR("b1"), REG("b1"), GA]}}
+
+
 def univ_tla():
     return "[" + ", ".join('%s |-> <<[name |-> "%s", help |-> "%s", cl |-> "%s", vl |-> "0"]>>' % (c, n, h, k) for c, (n, h, k) in UNIV.items()) + "]"
 
@@ -105,10 +111,14 @@ def run(ctx, exe):
     if ctx.quick:
         run_scenario(ctx, exe, R1, "R1", stats, nrandom=100)
         run_scenario(ctx, exe, R2, "R2", stats, nrandom=100)
+        run_scenario(ctx, exe, R6, "R6", stats, nrandom=100)
+        run_scenario(ctx, exe, R5, "R5", stats, model=False, nrandom=200)
     else:
         for sc, lb in ((R1, "R1"), (R2, "R2"), (R3, "R3")):
             run_scenario(ctx, exe, sc, lb, stats, nrandom=3000)
         run_scenario(ctx, exe, R4, "R4", stats, model=False, nrandom=10000)
+        run_scenario(ctx, exe, R6, "R6", stats, nrandom=3000)
+        run_scenario(ctx, exe, R5, "R5", stats, model=False, nrandom=10000)
     return stats
 
 
